@@ -43,6 +43,7 @@ class Engine:
         self.external_effects = {}
         self.witness_fields = {}
         self.field_types = {'_children': 'dict', '_metadata': 'dict'}
+        self.field_hints = {'_func': ['function']}
 
     # ------------------------------------------------------------------ classes
     def class_id(self, name):
@@ -295,7 +296,10 @@ class Engine:
     def opaque_iter(self, it, v, n, fr): self._no(it, n, f'iteration over {v!r}')
     def opaque_len(self, it, v, n): self._no(it, n, f'len of {v!r}')
     def opaque_isinstance(self, it, v, nm, n): return z3.BoolVal(False)
-    def call_opaque(self, it, fv, a, kw, n, fr): self._no(it, n, f'call of {fv!r}')
+    def call_opaque(self, it, fv, a, kw, n, fr):
+        if callable(fv.payload):
+            return fv.payload(it, a, kw, n)
+        self._no(it, n, f'call of {fv!r}')
     def construct_external(self, it, cv, a, kw, n, fr): self._no(it, n, f'construction of external class {cv.name}')
     def external_class_attr(self, it, cv, name, n): self._no(it, n, f'attribute {name} of external class {cv.name}')
     def symbolic_dictcomp(self, it, n, spec, fr):
@@ -341,8 +345,6 @@ class Engine:
         return f(s)
 
     def call_symbolic(self, it, fv, args, kwargs, n, fr):
-        """call of a callable that is a parameter (condition / map_fn / access_fn): by its P.func spec"""
-        spec = getattr(fv, 'fspec', None)
         it.unsupported(n, 'call of a symbolic value')
 
     def call_builtin_ext(self, it, name, a, kw, n, fr, as_cm=False):
@@ -425,7 +427,7 @@ class Engine:
                 run.assume(run.heap.cls(r) == self.class_id(kind))
             return SV(sym.mk_ref(r), hint=frozenset([kind]))
         if p.kind == 'func':
-            return p.kw['spec']
+            return OpaqueV('callable', p.kw['spec'])      # spec: fn(interp, args, kwargs, node) -> value
         raise Unsupported(f'parameter kind {p.kind}')
 
     # ------------------------------------------------------------------ verification of one contract
@@ -444,6 +446,7 @@ class Engine:
             prefix = dec.work.pop()
             run = PathRun(self, prefix)
             run.boxes = {}
+            run.skip_kinds = set(c.opts.get('skip_kinds', ()))
             it = Interp(self, run, c, fi)
             outcome = None
             try:
@@ -614,6 +617,7 @@ class Engine:
             if g is None:
                 run.obls.append(Obl(f'effect-ungated:{tag}@{kw.get("lineno")}', 'dominance', pc, z3.BoolVal(False), self.cur_key, kw.get('lineno')))
                 continue
+            sc.cur_event = (tag, pc, kw)
             goal = g(sc, kw)
             run.obls.append(Obl(f'dominance:{tag}@{kw.get("lineno")}', 'dominance', pc, goal, self.cur_key, kw.get('lineno'), props=c.props))
 
